@@ -287,6 +287,71 @@ func c18Case(c *Ctx, i int64) {
 			}
 		}
 	}
+	// reuse: after Reset onto a new source the reader must again yield one conforming frame
+	// (whatever state the previous stream was left in)
+	if chunk == 1 {
+		data2 := mixData(gi, 1000+gi.N(70000))
+		for scen := 0; scen < 4; scen++ {
+			var frame2 []byte
+			var err2 error
+			bad := ""
+			src1 := &crSource{Source: &gen.Source{Data: data, Budget: 100000}}
+			src2 := &crSource{Source: &gen.Source{Data: data2, Budget: 100000}}
+			if c.Guard("CompressingReader.reuse", func() {
+				zr := lz4.NewCompressingReader(src1)
+				if err := zr.Apply(o.options()...); err != nil {
+					err2 = err
+					return
+				}
+				buf := make([]byte, 1<<20)
+				switch scen {
+				case 0: // abandoned mid-stream after small reads (overflow pending)
+					for _, k := range []int{7, 100, 4096} {
+						zr.Read(buf[:k])
+					}
+				case 1: // consumed by one exact-length read: io.EOF never observed
+					zr.Read(buf[:len(frame)])
+				case 2: // read to io.EOF with small buffers
+					for k := 0; k < 1<<20; k++ {
+						if _, err := zr.Read(buf[:1+k%977]); err != nil {
+							break
+						}
+					}
+				default: // never read at all
+				}
+				zr.Reset(src2)
+				for k := 0; ; k++ {
+					sz := []int{4096, 7, 100000}[k%3]
+					n, err := zr.Read(buf[:sz])
+					if n < 0 || n > sz {
+						bad = fmt.Sprintf("Read(len %d) returned n=%d", sz, n)
+						return
+					}
+					frame2 = append(frame2, buf[:n]...)
+					if err == io.EOF {
+						return
+					}
+					if err != nil {
+						err2 = err
+						return
+					}
+					if k > 100000 {
+						bad = "the reused reader neither ends nor fails"
+						return
+					}
+				}
+			}) {
+				continue
+			}
+			c.Count("reuse_scenarios", 1)
+			res := crResult{frame: frame2, err: err2, badCall: bad}
+			saved := data
+			data = data2
+			judge(res, fmt.Sprintf("after-reset/scenario%d", scen), map[string]interface{}{"opts": o.String(), "first_source_len": len(saved), "second_source_len": len(data2), "scenario": []string{"abandoned mid-stream", "exact-length read", "read to EOF", "never read"}[scen]})
+			data = saved
+			c.Cell(fmt.Sprintf("%s/src%d/reuse/scenario%d", o.String(), len(data), scen))
+		}
+	}
 	if chunk == 0 && base%7 == 0 {
 		c.Sample(map[string]interface{}{"opts": o.String(), "srclen": len(data), "frame_len": len(frame), "read_size_classes": classes, "patterns_in_this_case": len(triples)})
 	}
